@@ -15,14 +15,15 @@ VERIF = os.path.dirname(os.path.dirname(os.path.abspath(__file__)))
 def run(name):
     patch = name if name.endswith(".diff") else os.path.join(VERIF, "seeded", name, "patch.diff")
     tag = os.path.basename(os.path.dirname(patch)) if not name.endswith(".diff") else os.path.basename(patch)[:-5]
-    wt = "/tmp/wt-c10tie-" + tag
+    wt = "/tmp/wt-c10tie"           # one path for all changes: the cargo / Coq build dirs of the scratch tree are reused
     subprocess.run(["git", "-C", "/repo", "worktree", "remove", "--force", wt], capture_output=True)
     subprocess.run(["git", "-C", "/repo", "worktree", "add", "--detach", wt, "HEAD"], check=True, capture_output=True)
     try:
         subprocess.run(["git", "-C", wt, "apply", os.path.abspath(patch)], check=True)
         pr = subprocess.run(["./check", "C10", "--tier", "quick"], cwd=VERIF, env=dict(os.environ, VERIF_REPO=wt),
                             capture_output=True, text=True, timeout=3600)
-        ev = json.load(open(os.path.join(VERIF, "evidence", "C10.json")))
+        t = "r" + hashlib.sha256(wt.encode()).hexdigest()[:10]
+        ev = json.load(open(os.path.join(VERIF, ".cache", "evidence-" + t, "C10.json")))   # scratch runs write there
         cov = ev.get("coverage", {})
         ties = cov.get("broken_ties", [])
         tr = [t for t in ties if t.get("kind") == "translator"]
@@ -34,10 +35,17 @@ def run(name):
                 "first_failing_input": first[0][2:160] if first else None}
     finally:
         subprocess.run(["git", "-C", "/repo", "worktree", "remove", "--force", wt], capture_output=True)
-        t = "r" + hashlib.sha256(wt.encode()).hexdigest()[:10]
-        subprocess.run(["rm", "-rf", os.path.join(VERIF, ".cache", "harness", t)])
+
+
+def cleanup():
+    t = "r" + hashlib.sha256(b"/tmp/wt-c10tie").hexdigest()[:10]
+    for d in (os.path.join("harness", t), "evidence-" + t, "coq-" + t):
+        subprocess.run(["rm", "-rf", os.path.join(VERIF, ".cache", d)])
 
 
 if __name__ == "__main__":
-    for n in sys.argv[1:]:
-        print(json.dumps(run(n)), flush=True)
+    try:
+        for n in sys.argv[1:]:
+            print(json.dumps(run(n)), flush=True)
+    finally:
+        cleanup()
